@@ -33,6 +33,7 @@ pub fn run(engine: &str, toks: Vec<Tok>) -> Vec<Tok> {
         "c03_v4_sweep" => c03::v4_sweep(toks),
         "bin_run" => bin::run(toks),
         "c15_front" => c15f::run(toks),
+        "c15_udp_front" => c15f::udp(toks),
         "c02_front" => c02f::run(toks),
         "c04_eval" => c04::eval(toks),
         "c04_front" => c04::front(toks),
